@@ -4,6 +4,7 @@ import SignalProofs.Props.C08
 import SignalProofs.Props.C17
 import SignalProofs.Props.C09Rel
 import SignalProofs.Props.Cells
+import SignalProofs.Props.C05F
 /-!
 # C08 and C17, stated about the code as it is written now
 
@@ -78,5 +79,26 @@ theorem gen_C09_signed (s d : Kind) (hs : s.isSigned = true) (hd : d.isFloat = t
   · exact C09.s_endpointsOK hE x hx
   · exact C09.s_oneStepOK hE x hx
   · exact C09.s_oneStepRelOK hE x hx
+
+end Sig.GenEq
+
+namespace Sig.GenEq
+open Sig Sig.Spec
+
+/-- **C05, float to float** on the regenerated code: the cell the regenerated `FloatAsFloat` kernel produces decodes to
+`f2fK` of the source value - the same value when the destination is float64 (from either source format) or when both
+are float32 (exact, for every bit pattern), never clipped -/
+theorem gen_C05_f2f (s d : Kind) (hs : s.isFloat = true) (hd : d.isFloat = true) (x : Int) :
+    ∃ c, genKernel .floatAsFloat s s.width d d.width x = some c ∧
+      cellToFV d c = f2fK d.fmt (cellToFV s x) := by
+  refine ⟨fvToCell d (f2fK d.fmt (cellToFV s x)), ?_, ?_⟩
+  · simp only [genKernel, floatAsFloat_k_eq, Option.map_some]
+  · exact Cells.conv_cell s d x
+
+theorem gen_C05_widen_exact (s : Kind) (x : Int) :
+    Spec.C05.exactOK (cellToFV s x) (f2fK f64 (cellToFV s x)) = true := C05F.to64_exact s x
+
+theorem gen_C05_f32_exact (x : Int) :
+    Spec.C05.exactOK (cellToFV .f32 x) (f2fK f32 (cellToFV .f32 x)) = true := C05F.f32_exact x
 
 end Sig.GenEq
